@@ -853,3 +853,102 @@ func alsoGood(a, b int32) int32 { return a * b }
 		o.Verdict, o.VerdictS = Undecided, "undecided"
 	}
 }
+
+// ---------- TS-NARROW
+
+// narrowedDividends: divisions and remainders whose dividend was narrowed from a 64-bit integer to 32 bits or
+// fewer just before ("int32(t.Unix()) / 86400"): the truncation hits the value before the division has
+// brought it into the narrow type's range, so the quotient is wrong for every value beyond ±2^31 although
+// the quotient itself would have fitted.
+func narrowedDividends(fns []*ssa.Function) []*ssa.BinOp {
+	var out []*ssa.BinOp
+	is64 := func(t types.Type) bool {
+		b, ok := t.Underlying().(*types.Basic)
+		if !ok || b.Info()&types.IsInteger == 0 {
+			return false
+		}
+		switch b.Kind() {
+		case types.Int64, types.Uint64, types.Int, types.Uint, types.Uintptr:
+			return true
+		}
+		return false
+	}
+	isNarrow := func(t types.Type) bool {
+		b, ok := t.Underlying().(*types.Basic)
+		if !ok || b.Info()&types.IsInteger == 0 {
+			return false
+		}
+		switch b.Kind() {
+		case types.Int8, types.Int16, types.Int32, types.Uint8, types.Uint16, types.Uint32:
+			return true
+		}
+		return false
+	}
+	for _, fn := range fns {
+		for _, b := range fn.Blocks {
+			for _, in := range b.Instrs {
+				bo, ok := in.(*ssa.BinOp)
+				if !ok || (bo.Op != token.QUO && bo.Op != token.REM) || !isNarrow(bo.Type()) {
+					continue
+				}
+				x := bo.X
+				for i := 0; i < 3; i++ {
+					if ct, isCT := x.(*ssa.ChangeType); isCT {
+						x = ct.X
+					}
+				}
+				cv, ok := x.(*ssa.Convert)
+				if !ok || !is64(cv.X.Type()) {
+					continue
+				}
+				// a dividend that was itself reduced in 64 bits first (a quotient, a remainder, a masked or shifted
+				// value) is a different matter: the narrowing then follows a reduction
+				if inner, isB := cv.X.(*ssa.BinOp); isB {
+					switch inner.Op {
+					case token.QUO, token.REM, token.AND, token.SHR:
+						continue
+					}
+				}
+				out = append(out, bo)
+			}
+		}
+	}
+	return out
+}
+
+func ruleTSNarrow(c *Ctx) {
+	c.Rule("TS-NARROW", "no 64-bit quantity is narrowed to 32 bits or fewer and divided afterwards: the division that brings a count of seconds into the range of a day number is carried out before the narrowing", 0)
+	P := c.P
+	n := 0
+	for _, bo := range narrowedDividends(P.ModuleFuncs()) {
+		n++
+		c.Bad(fmt.Sprintf("%s/narrowed-dividend#%d", fnKey(bo.Parent()), n), P.pos(bo.Pos()), fmt.Sprintf("%s divides a value that was narrowed from 64 bits to %s first: the truncation precedes the reduction, so every instant beyond ±2^31 units gives a wrong quotient although the quotient itself fits", strings.TrimSpace(bo.String()), bo.Type()))
+	}
+	if n == 0 {
+		c.OK("module/no-narrowed-dividend", "-", "no division or remainder in a sub-64-bit integer type takes a dividend narrowed from 64 bits")
+	}
+	fx := buildFixture(`package fx
+func bad(s int64) int32 { return int32(s) / 86400 }
+func good(s int64) int32 { return int32(s / 86400) }
+func alsoGood(s int64) int32 { return int32(s%1000) / 10 }
+func fine(a, b int32) int32 { return a / b }
+`)
+	if fx == nil {
+		c.Unk("fixture/TS-NARROW", "-", "fixture package did not build")
+		return
+	}
+	var ffns []*ssa.Function
+	for _, m := range fx.Members {
+		if f, ok := m.(*ssa.Function); ok {
+			ffns = append(ffns, f)
+		}
+	}
+	hits := map[string]bool{}
+	for _, bo := range narrowedDividends(ffns) {
+		hits[bo.Parent().Name()] = true
+	}
+	o := c.ob(Discharged, "fixture/TS-NARROW", "-", fmt.Sprintf("positive fixture: flagged %v (expected exactly bad)", hits), false)
+	if !(len(hits) == 1 && hits["bad"]) {
+		o.Verdict, o.VerdictS = Undecided, "undecided"
+	}
+}
